@@ -1,63 +1,15 @@
+import SdJwt.Impl.Base64
 /-!
-Executable-only base64url (RFC 4648 §5) without padding, strict like the crate's
-`URL_SAFE_NO_PAD` engine: rejects padding, characters outside the alphabet, a single trailing
-character, and non-zero trailing bits. No theorem depends on this file.
+Executable glue for base64url: the driver runs the *model's* `B64.enc` / `B64.dec`
+(`Impl/Base64.lean`, proved inverse to each other in `Lemmas/Base64L.lean`) on `ByteArray`s and
+`String`s. Every correspondence run therefore compares exactly the functions the theorems are about
+with the crate's `URL_SAFE_NO_PAD` engine.
 -/
 namespace Exec
 
-def b64Alphabet : Array Char :=
-  "ABCDEFGHIJKLMNOPQRSTUVWXYZabcdefghijklmnopqrstuvwxyz0123456789-_".toList.toArray
+def b64Enc (b : ByteArray) : String := String.ofList (B64.enc b.toList)
 
-def b64Enc (b : ByteArray) : String := Id.run do
-  let mut out : String := ""
-  let n := b.size
-  let mut i := 0
-  while i + 3 ≤ n do
-    let x := b[i]!.toNat * 65536 + b[i+1]!.toNat * 256 + b[i+2]!.toNat
-    out := out.push b64Alphabet[x / 262144 % 64]! |>.push b64Alphabet[x / 4096 % 64]!
-             |>.push b64Alphabet[x / 64 % 64]! |>.push b64Alphabet[x % 64]!
-    i := i + 3
-  if n - i == 1 then
-    let x := b[i]!.toNat * 65536
-    out := out.push b64Alphabet[x / 262144 % 64]! |>.push b64Alphabet[x / 4096 % 64]!
-  else if n - i == 2 then
-    let x := b[i]!.toNat * 65536 + b[i+1]!.toNat * 256
-    out := out.push b64Alphabet[x / 262144 % 64]! |>.push b64Alphabet[x / 4096 % 64]!
-             |>.push b64Alphabet[x / 64 % 64]!
-  return out
-
-def b64Val (c : Char) : Option Nat :=
-  if 'A' ≤ c ∧ c ≤ 'Z' then some (c.toNat - 'A'.toNat)
-  else if 'a' ≤ c ∧ c ≤ 'z' then some (c.toNat - 'a'.toNat + 26)
-  else if '0' ≤ c ∧ c ≤ '9' then some (c.toNat - '0'.toNat + 52)
-  else if c = '-' then some 62
-  else if c = '_' then some 63
-  else none
-
-def b64Dec (s : String) : Option ByteArray := Id.run do
-  let cs := s.toList.toArray
-  let mut vals : Array Nat := Array.mkEmpty cs.size
-  for c in cs do
-    match b64Val c with
-    | some v => vals := vals.push v
-    | none => return none
-  let n := vals.size
-  if n % 4 == 1 then return none
-  let mut out := ByteArray.empty
-  let mut i := 0
-  while i + 4 ≤ n do
-    let x := vals[i]! * 262144 + vals[i+1]! * 4096 + vals[i+2]! * 64 + vals[i+3]!
-    out := out.push (UInt8.ofNat (x / 65536 % 256)) |>.push (UInt8.ofNat (x / 256 % 256)) |>.push (UInt8.ofNat (x % 256))
-    i := i + 4
-  if n - i == 2 then
-    let x := vals[i]! * 262144 + vals[i+1]! * 4096
-    if x % 65536 != 0 then return none    -- non-canonical trailing bits
-    out := out.push (UInt8.ofNat (x / 65536 % 256))
-  else if n - i == 3 then
-    let x := vals[i]! * 262144 + vals[i+1]! * 4096 + vals[i+2]! * 64
-    if x % 256 != 0 then return none
-    out := out.push (UInt8.ofNat (x / 65536 % 256)) |>.push (UInt8.ofNat (x / 256 % 256))
-  return some out
+def b64Dec (s : String) : Option ByteArray := (B64.dec s.toList).map fun l => ByteArray.mk l.toArray
 
 #guard b64Enc "foobar".toUTF8 == "Zm9vYmFy"
 #guard b64Enc "fooba".toUTF8 == "Zm9vYmE"
